@@ -408,6 +408,21 @@ def _run(tier, seed, t0, on_accept=None):
             if sz[k] >= 1:
                 try_rule('verit_th_resolution', (tuple(res), tuple(sz)), prevs, 'resolution')
 
+    # ---- connective_def: every way of filling the six (seven) positions of the two definitional equivalences with three
+    # atoms - the rule compares components pairwise, a comparison of the wrong pair accepts an equivalence that is not one
+    if 'verit_connective_def' in theory.global_macros:
+        pool3 = [p, q, r]
+        for x_, y_, u_, v_, w_, z_ in itertools.product(pool3, repeat=6):
+            try_rule('verit_connective_def', (Eq(Eq(x_, y_), And(Implies(u_, v_), Implies(w_, z_))),), [], 'connective_def')
+        for x_, y_, z_, u_, v_, w_, t_ in itertools.product(pool3, repeat=7):
+            if (x_, y_, z_) not in ((p, q, r), (p, q, q), (p, p, q)):
+                continue
+            for neg in (True, False):
+                g = Eq(logic.mk_if(x_, y_, z_), And(Implies(u_, v_), Implies(Not(w_) if neg else w_, t_)))
+                try_rule('verit_connective_def', (g,), [], 'connective_def')
+        for x_, y_, u_, v_, w_, z_ in itertools.product([p, q], repeat=6):
+            try_rule('verit_connective_def', (Eq(logic.mk_xor(x_, y_), Or(And(Not(u_), v_), And(w_, Not(z_)))),), [], 'connective_def')
+
     # ---- resolution with a clause REPEATED among the premises (not adjacent): veriT lists a premise once per use, and
     # the evaluation works on converted copies of the premise clauses - the copies of one clause must stay independent
     rng.seed('%s/resolution-repeat' % seed)
